@@ -10,8 +10,8 @@ from harness.core import cfg_text, Machinery
 from harness.drivers import channel as dc
 
 INVS = ["ReturnedMeansAll", "RaiseIfShut", "SendallOutcome", "SendallNoSpin"]
-MINVS = INVS + ["HangFree"]                    # model form of "never parked for good in the window wait"
-TINVS = INVS + ["NoHangInWindowWait"]          # its at-rest form, judged when a schedule of the real code has ended
+MINVS = INVS + ["HangFree", "TimedSendEndsInTime"]                    # model form of "never parked for good in the window wait"
+TINVS = INVS + ["NoHangInWindowWait", "TimedSendEndsInTime"]          # its at-rest form, judged when a schedule of the real code has ended
 BASE = dict(UsersA={"a1", "a2"}, UsersB={"b1"}, Daemons="@{}", OpsA="@{}", OpsB="@{}", MaxCalls=1, W0=3, MaxPkt=2, PeerMax=2,
             Thresh=0, SendN=4, Codes={1}, ReadSizes={2}, Modes={"block"}, Loss=False,
             FixRace=True, FixSendall=True, FixCredit=True, Mut="none", SpinCap=3, HoldBack=False)
@@ -52,6 +52,12 @@ def model(c, runs):
                               invariants=MINVS)),
             dict(name="two writers parked at window 0, one adjust for both; transport loss while parked", module="Channel",
                  cfg=cfg_text(constants=dict(small, OpsA={"sendall", "sendall_err"}, OpsB={"recv"}, ReadSizes={4}, Loss=True), invariants=MINVS)),
+            dict(name="timed sendall parked at window 0 while the peer sends zero-byte window adjustments (futile wake-ups)", module="Channel",
+                 cfg=cfg_text(constants=dict(small, UsersA={"a1"}, OpsA={"sendall"}, OpsB={"zero_adjust"}, MaxCalls=2, Modes={"timed"}), invariants=MINVS)),
+            dict(name="sensitivity: wake_restarts_timer (every wake-up of the timed wait restarts the full timeout)", module="Channel",
+                 expect="TimedSendEndsInTime",
+                 cfg=cfg_text(constants=dict(small, UsersA={"a1"}, OpsA={"sendall"}, OpsB={"zero_adjust"}, MaxCalls=2, Modes={"timed"},
+                                             Mut="wake_restarts_timer"), invariants=MINVS)),
             dict(name="liveness: every sendall ends (reader keeps reading; shutdown_write from a second thread)", module="Channel",
                  cfg=cfg_text(constants=dict(BASE, UsersB="@{}", Daemons={"dB_out"}, OpsA={"sendall", "shutdown_write"}, SendN=3), invariants=[], **LIVE)),
             dict(name="simulate (spec -> code)", module="Channel_Gen", simulate=True, expect="behaviours",
@@ -110,6 +116,10 @@ def model(c, runs):
 
 
 FIXED = [
+    # a TIMED writer parked at window 0 while futile wake-ups keep arriving (zero-byte WINDOW_ADJUSTs on the virtual clock):
+    # it must give up one timeout after it stalled, however often it is woken
+    {"threads": {"a1": [("sendall", 40000)], "b1": [("zero_adjusts", 4, 200)]}, "tmo": "timed"},
+    {"threads": {"a1": [("send", 32768), ("send_err", 10)], "b1": [("zero_adjusts", 8, 100)]}, "tmo": "timed", "pktA": 65536},
     # transport loss (_unlink) while a blocking sendall / sendall_stderr is PARKED at window 0 - both streams, both roles
     {"threads": {"a1": [("sendall", 40000)]}, "lost": ["A"], "lost_when": {"A": "zero"}},
     {"threads": {"a1": [("sendall_err", 40000)]}, "lost": ["A"], "lost_when": {"A": "zero"}},
@@ -178,6 +188,12 @@ def programs(rnd, n):
 
 def describe(clause, it, evs, l):
     fin = it["verdict"]["final"]
+    if clause == "P_TimedSendEndsInTime":
+        e = evs[l - 1]
+        what = ("a timed send/sendall (timeout 0.5 s) that stalled at virtual time %d ms started another wait on the window condition with "
+                "deadline %d ms: every wake-up that does not open the window restarts the full timeout, so it never raises socket.timeout "
+                "while such wake-ups keep arriving. Last events: %s | program %r" % (e["now"], e["dl"], dc.brief(evs, l), it["prog"]["threads"]))
+        return clause, what, dc.replay_record(it)
     if clause == "P_NoHangInWindowWait":
         s = fin["sides"]
         if s["A"]["eofSent"] and not s["A"]["closed"]:
@@ -216,7 +232,7 @@ def run(c):
         if "pktA" in p:
             prog["par"]["pkt"]["B"] = p["pktA"]        # what B allows A to send in one message
         progs.append(prog)
-    progs += programs(rnd, 8 if c.quick else 150)
+    progs += programs(rnd, 6 if c.quick else 150)
     deadline = time.time() + (120 if c.quick else 600)   # safety net only: the schedule counts bound the exploration, so the result does not depend on machine load
     explored = dc.explore_into(runs, c, progs, 8 if c.quick else 150, 3 if c.quick else 40, deadline, bound=1 if c.quick else 2,
                                max_steps=1500, gap_runs=6)
